@@ -332,6 +332,10 @@ func (w *World) ReadContents(m *mast.Mast) (c Contents) {
 	return
 }
 
+// NewValPtr / DerefVal are exported for checks that call Get themselves.
+func NewValPtr(c *Config) interface{} { return newValPtr(c) }
+func DerefVal(p interface{}) interface{} { return reflect.ValueOf(p).Elem().Interface() }
+
 func newValPtr(c *Config) interface{} {
 	if c.ValsLike == nil {
 		var x interface{}
